@@ -11,7 +11,15 @@ Nothing is compiled or executed.  The reader
    can parse it -- a body that still does not parse is reported as not covered,
 4. interprets `apply` symbolically once per operator spelling (`sym_apply`), and
 5. enumerates the explicit control-flow paths of every function that touches C
-   nodes and records the reference events along each path (`ref_traces`).
+   nodes and records the reference events along each path (`ref_traces`),
+   including the references kept in containers: a C array from
+   `<DdRef *> PyMem_Malloc(…)` until its `PyMem_Free`, a Python `dict()` that
+   nodes are stored into or that is handed down a recursion, a container
+   parameter (`DdRef *vector`, `table: dict`, `DdHashTable * hash`); events
+   `alloc`/`cnew`/`cparam`, `store`, `load`, `passC`, `free`, and `derefAll` for a
+   loop that is recognised BY ITS SHAPE as "dereference every element once"
+   (`Tracer.release_loop`); the path condition `x.ref <= 0` (`refNonPos`); stores
+   into the `next` field of a node (`setField`).
 
 Whatever is not recognised becomes an explicit `unknown` (apply) or puts the
 function on the `uncovered` list (traces); it is never silently dropped.
@@ -1297,10 +1305,6 @@ class Tracer:
         if isinstance(target, ast.Name):
             p.env[target.id] = v
             self.forget(target.id, p)
-            # `g = …` makes `g.node` a different node from now on
-            for k in [k for k in p.env if isinstance(k, tuple) and k[0] == 'param'
-                      and k[1].startswith(target.id + '.')]:
-                del p.env[k]
             if v[0] == 'node':
                 p.names[v[1]] = target.id
             return
@@ -1323,9 +1327,7 @@ class Tracer:
                     if x is not None:
                         c = self.as_cont(base, p)
                         p.events.append(('store', c, x))
-                    elif v[0] == 'null' or v[0] == 'other' or v[0] == 'tuple':
-                        pass
-                    return
+                    return      # anything else (an integer, a string, NULL) is not a reference
             else:
                 base = self.ev(target.value, p)
                 bx = self.node_of(base, p) if base[0] in ('node', 'param') else None
@@ -1338,7 +1340,7 @@ class Tracer:
                     return
             if v[0] == 'node' and v[2] != 'param':
                 raise Uncovered(f'line {st.lineno}: stores a node into a container or attribute '
-                                '(ownership transfer is not modelled)')
+                                'that is not followed')
             return
         raise Uncovered(f'line {st.lineno}: assignment target')
 
@@ -1576,6 +1578,10 @@ class Tracer:
     def forget(self, name, p):
         for k in [k for k, (names, _v) in p.conds.items() if name in names]:
             del p.conds[k]
+        # `g = …` makes `g.node` a different node from now on
+        for k in [k for k in p.env if isinstance(k, tuple) and len(k) == 2 and k[0] == 'param'
+                  and isinstance(k[1], str) and k[1].startswith(name + '.')]:
+            del p.env[k]
 
     @staticmethod
     def pure_test(test):
@@ -1684,10 +1690,18 @@ class Tracer:
             return p.env[v][1]
         return None
 
+    def is_python_cont(self, v):
+        if v[0] == 'pycont':
+            return True
+        if v[0] == 'contparam':
+            return any(n == v[1] and t == 'dict' for n, t, _d in self.func.params)
+        return False
+
     def holds_nodes(self, v):
         return v[0] in ('contparam', 'pycont') or (v[0] == 'cont' and v[2] == 'nodes')
 
-    def ev(self, e, p):
+    def ev(self, e, p, cast=False):
+        """`cast`: the expression is the operand of a `<DdRef>` cast."""
         if e is None:
             return ('other',)
         if isinstance(e, ast.Constant):
@@ -1731,7 +1745,7 @@ class Tracer:
         if isinstance(e, ast.Call):
             return self.call(e, p)
         if isinstance(e, ast.UnaryOp) and isinstance(e.op, ast.UAdd):
-            v = self.ev(e.operand, p)
+            v = self.ev(e.operand, p, cast=True)
             a = self.as_node(v, e.operand, p) if v[0] in ('node', 'param') else None
             x = p.new('<DdRef>')
             p.events.append(('produce', x, '<DdRef>', (a,) if a is not None else ()))
@@ -1744,8 +1758,9 @@ class Tracer:
         if isinstance(e, ast.Subscript):
             b = self.ev(e.value, p)
             self.ev(e.slice, p)
-            if self.is_cont(b) and self.holds_nodes(b):
-                # `vector[index]`, `table[t]`: an element the container refers to
+            if self.is_cont(b) and self.holds_nodes(b) and (cast or not self.is_python_cont(b)):
+                # `vector[index]`, `<DdRef><stdint.uintptr_t>table[t]`: an element the container refers
+                # to (a Python container may hold anything: only what is cast back to a node counts)
                 c = self.as_cont(b, p)
                 x = p.new(_src(e))
                 p.events.append(('load', x, c))
